@@ -152,6 +152,10 @@ class CubeCountsIface:
         )
 
 
+PLAIN_TYPES = ("BINNED_NUMERIC", "CAT", "CA_CAT", "DATETIME", "LOGICAL", "TEXT")
+OTHER_TYPES = PLAIN_TYPES + ("CA_SUBVAR", "NUM_ARRAY")
+
+
 class SliceEnv:
     """State shared by the measure-level contracts: two dimensions with subtotals and the
     weighted / unweighted cube-count interfaces."""
@@ -163,8 +167,10 @@ class SliceEnv:
         self.DT = DT
         self.R = R = B.size("R", lo=1)
         self.C = C = B.size("C", lo=1)
-        rtype = (DT.CAT_DATE if rows_date else DT.CAT) if rows_cat else DT.MR_SUBVAR
-        ctype = (DT.CAT_DATE if cols_date else DT.CAT) if cols_cat else DT.MR_SUBVAR
+        # a dimension that is neither categorical-date nor multiple-response: any other type
+        # a slice dimension can have (symbolic, so a type-specific branch in the code forks)
+        rtype = (DT.CAT_DATE if rows_date else B.member("rows.dimension_type", "enums:DIMENSION_TYPE", OTHER_TYPES)) if rows_cat else DT.MR_SUBVAR
+        ctype = (DT.CAT_DATE if cols_date else B.member("cols.dimension_type", "enums:DIMENSION_TYPE", OTHER_TYPES)) if cols_cat else DT.MR_SUBVAR
         self.rdim, self.rows = mk_dim(B, "rows", R, dimension_type=rtype, subtotals=rows_cat)
         self.cdim, self.cols = mk_dim(B, "cols", C, dimension_type=ctype, subtotals=cols_cat)
         self.dims = (self.rdim, self.cdim)
